@@ -1023,3 +1023,33 @@ Lemma resolve_tag_without_digest_header_refuted :
   snd (spec_run w_H (fun _ => Some None) (b "app") [] (mkStore [] [] [] []) w_ops)
   = [ROk; RDesc w_desc].
 Proof. vm_compute. split; reflexivity. Qed.
+
+(* ---------- non-vacuity of the refinement hypotheses ---------- *)
+Definition ex_profile := mkProfile true false false true true.
+Definition ex_blob := b "layer".
+Definition ex_bdesc := mkDesc ct_octet zero_digest 5.
+Definition ex_ref := b "{subject:w}".
+Definition ex_rdesc := mkDesc mt_oci_manifest zero_digest 11.
+Definition ex_subject (c : str) : option (option desc) :=
+  if str_eqb c ex_ref then Some (Some w_desc) else Some None.
+Definition ex_ops : list op :=
+  [OPushRef w_desc w_content (b "v1"); OResolve (b "v1"); OFetchRef (b "v1"); OFetch w_desc;
+   OTag w_desc (b "v2"); OExists w_desc; OMount ex_bdesc None; OFetch ex_bdesc;
+   OPreds w_desc; ODelete w_desc; OResolve (b "v2");
+   OPushRef ex_rdesc ex_ref (b "r1"); OPreds w_desc].
+Lemma refines_store_nonvacuous :
+  wf_hist w_H (fun s => Some s) ex_subject (b "app") [] ex_profile
+          (mkStore [] [] [] [(zero_digest, ex_blob)]) ex_ops /\
+  rst_ok ex_profile RSUnknown /\
+  snd (spec_run w_H ex_subject (b "app") [] (mkStore [] [] [] [(zero_digest, ex_blob)]) ex_ops)
+  = [ROk; RDesc w_desc; RDescBytes w_desc w_content; RBytes w_content; ROk; RBool true; ROk;
+     RBytes ex_blob; RDescs []; ROk; RErr ENotFound; ROk; RDescs [ex_rdesc]].
+Proof.
+  split; [|split; [left; discriminate|vm_compute; reflexivity]].
+  vm_compute. repeat split; auto; intros;
+    repeat match goal with
+           | X : Some _ = Some _ |- _ => injection X; clear X; intros; subst
+           | X : None = Some _ |- _ => discriminate X
+           end; auto.
+  all: try (right; split; [reflexivity|]; eexists; split; [reflexivity|discriminate]).
+Qed.
